@@ -39,10 +39,12 @@ def install():
     glue.install()
     _install_shims()
     if getattr(ann, "_verif_hash", False):
+        install_recorder()
         return
     ann._verif_hash = True
     ann.hash = nominal_hash
     _install_dsis_shims()
+    install_recorder()
 
 
 def _install_dsis_shims():
@@ -112,3 +114,127 @@ def py_covers(av, v):
     if isinstance(av, (bool, BoolResult)):
         return BoolResult.has_true(av) if v else BoolResult.has_false(av)
     return False
+
+
+# ---------------------------------------------------------------------------------------------------------
+# attribution of a failure to a recorded C21/C22 finding: every StridedInterval transfer function / query that runs during a
+# build is recorded with its operands; a failing path is attributed to an interval-level finding only if one of the calls
+# actually made on that path had operands that are listed in the exact table of known-failing operand tuples (or the
+# operation has findings but no exact table for that width / parameters).
+
+CALLS = []
+
+_BIN = {"add": "add", "sub": "sub", "mul": "mul", "udiv": "udiv", "sdiv": "sdiv", "__mod__": "mod", "bitwise_and": "and", "bitwise_or": "or",
+        "bitwise_xor": "xor", "lshift": "shl", "rshift_logical": "lshr", "rshift_arithmetic": "ashr", "concat": "concat",
+        "SLT": "SLT", "SLE": "SLE", "SGT": "SGT", "SGE": "SGE", "ULT": "ULT", "ULE": "ULE", "UGT": "UGT", "UGE": "UGE", "eq": "eq",
+        "union": "union", "widen": "widen", "intersection": "intersection"}
+_UN = {"neg": "negm", "bitwise_not": "not"}
+
+
+def install_recorder():
+    import functools
+
+    from claripy.backends.backend_vsa.strided_interval import StridedInterval as SI
+
+    if getattr(SI, "_verif_recorded", False):
+        return
+    SI._verif_recorded = True
+
+    def snap(si):
+        return (si._bits, si._stride, si._lower_bound, si._upper_bound, si._is_bottom)
+
+    def wrap(meth, make):
+        orig = SI.__dict__.get(meth)
+        if orig is None:
+            return
+
+        @functools.wraps(orig)
+        def w(self, *a, **kw):
+            try:
+                rec = make(self, a, kw)
+                if rec is not None:
+                    CALLS.append(rec)
+            except Exception:  # noqa: BLE001
+                pass
+            return orig(self, *a, **kw)
+
+        setattr(SI, meth, w)
+
+    for meth, op in _BIN.items():
+        wrap(meth, lambda self, a, kw, op=op: (op, snap(self), snap(a[0]) if isinstance(a[0], SI) else ("int", a[0])) if a else None)
+    for meth, op in _UN.items():
+        wrap(meth, lambda self, a, kw, op=op: (op, snap(self), None))
+    wrap("zero_extend", lambda self, a, kw: ("zext", snap(self), ("param", a[0])))
+    wrap("sign_extend", lambda self, a, kw: ("sext", snap(self), ("param", a[0])))
+    wrap("extract", lambda self, a, kw: ("extract", snap(self), ("param", a[0], a[1])))
+    wrap("min", lambda self, a, kw: ("smin", snap(self), None) if (kw.get("signed") or (a and a[0])) else None)
+    wrap("max", lambda self, a, kw: ("smax", snap(self), None) if (kw.get("signed") or (a and a[0])) else None)
+    wrap("eval", lambda self, a, kw: ("evalsigned", snap(self), None) if (kw.get("signed") or (len(a) > 1 and a[1])) else None)
+    wrap("solution", lambda self, a, kw: ("solution", snap(self), None))
+
+
+def reset_calls():
+    del CALLS[:]
+
+
+def _family_has_findings(op):
+    from .p_vsa import tables
+
+    for k, v in tables().items():
+        name = k.split(":")[1]
+        if (name == op or (op in ("zext", "sext", "extract") and name.startswith(op))) and v["count"]:
+            return True
+    return False
+
+
+def attribute(ev):
+    """ev(value) -> concrete int of a (possibly shadow) field under the counterexample model.
+    Returns a description of the first recorded call whose operands are a known-failing tuple of C21/C22, else None."""
+    from .p_vsa import key_of, tables
+
+    T = tables()
+    for op, a, b in CALLS:
+        bits, s, lb, ub, bottom = a
+        if bottom:
+            continue
+        n = bits
+        m = (1 << n) - 1
+        at = (ev(s) & m, ev(lb) & m, ev(ub) & m)
+        name = op
+        bt = None
+        if b is not None and b[0] == "param":
+            if op == "zext" or op == "sext":
+                name = f"{op}{b[1] - n}"
+            else:
+                name = f"extract{b[1]}_{b[2]}"
+        elif b is not None and b[0] == "int":
+            v = ev(b[1]) & m
+            bt = (0, v, v)
+        elif b is not None:
+            if b[4]:
+                continue
+            if b[0] != n:
+                bt = "mixed"
+            else:
+                bt = (ev(b[1]) & m, ev(b[2]) & m, ev(b[3]) & m)
+        tab = T.get(f"C21/si:{name}:{n}") or T.get(f"C22/si:{name}:{n}")
+        if tab is None or bt == "mixed":
+            if _family_has_findings(op):
+                return f"{name} at width {n} (no exact table; the operation has recorded findings)"
+            continue
+        if not tab["count"]:
+            continue
+        key = key_of(n, at, bt) if bt is not None else key_of(n, at)
+        if key in _keyset(f"{name}:{n}", tab):
+            return f"{name} n={n} a={at} b={bt} is a known-failing operand tuple"
+    return None
+
+
+_KEYSETS = {}
+
+
+def _keyset(name, tab):
+    ks = _KEYSETS.get(name)
+    if ks is None:
+        ks = _KEYSETS[name] = set(tab["keys"])
+    return ks
